@@ -8,18 +8,17 @@ PROP_ID = 'C18'
 LEVEL = 'exploration'
 BUDGET = {'quick': 15000, 'thorough': 150000}
 RULE = ('Model-based histories: Hypothesis draws op-lists (<=25 ops: append, extend, +=, insert, '
-        'setitem, delitem int/slice, pop, getitem int/slice/list/ndarray, by_label, set_order) over a '
+        'setitem, delitem int/slice, pop, getitem int/slice/list/ndarray/tuple, by_label, set_order) over a '
         'pool of 8 compatible frames (varying tchans/t_start, two value-equal twins, one of opposite orientation with equal '
         'fmin), 7 incompatible frames (df/dt/fchans/fmin, three of them off by a single ulp) and 6 non-frames (two frame-like: a cadence and a look-alike object); order strings mix upper and lower case; a third of the cadences are constructed with t_overwrite; a second cadence may be constructed FROM the cadence and must stay independent; every op is applied to the '
         'cadence and to a plain Python list model in lock-step and identity/order/labels/aggregates are '
         'compared after every op. Non-trivial: >=3 mutating ops including a rejected addition or a '
         'mid-list insertion; distinct by hash of the history.')
-ASSUMPTIONS = ['tuples are not generated as selectors (numpy reads them as multi-dimensional indices)',
-               'empty index lists are not generated', 'set_order only with orders at least as long as the cadence',
+ASSUMPTIONS = ['empty index lists are not generated', 'set_order only with orders at least as long as the cadence',
                'slice assignment is not generated (property speaks of item assignment)']
 REQUIRED_CLASSES = ['ordered', 'plain', 'op=insert', 'op=setitem', 'op=delitem', 'op=pop', 'op=getitem_list',
                     'op=getitem_slice', 'op=extend', 'op=by_label', 'rejected_nonframe', 'rejected_incompatible',
-                    'mid_insert', 'insert_out_of_range', 'op=clone', 'op=swap', 'twin_frames_both_members', 'constructed_with_t_overwrite']
+                    'mid_insert', 'insert_out_of_range', 'op=clone', 'op=swap', 'twin_frames_both_members', 'constructed_with_t_overwrite', 'selector_tuple']
 
 N_COMPAT, N_INCOMPAT, N_NON = 8, 7, 6
 POOL = N_COMPAT + N_INCOMPAT + N_NON
@@ -44,7 +43,7 @@ op_strategy = st.one_of(
     st.fixed_dictionaries({'op': st.just('getitem'), 'i': idx}),
     st.fixed_dictionaries({'op': st.just('getitem_slice'), 'a': opt, 'b': opt,
                            'c': st.sampled_from([None, 1, 2, -1])}),
-    st.fixed_dictionaries({'op': st.just('getitem_list'), 'kind': st.sampled_from(['list', 'ndarray']),
+    st.fixed_dictionaries({'op': st.just('getitem_list'), 'kind': st.sampled_from(['list', 'ndarray', 'tuple']),
                            'ii': st.lists(idx, min_size=1, max_size=5)}),
     st.fixed_dictionaries({'op': st.just('by_label'), 'label': st.sampled_from(list('ABCDXab'))}),
     st.fixed_dictionaries({'op': st.sampled_from(['clone', 'swap'])}),
@@ -362,7 +361,9 @@ def run_case(case, ctx):
             ii = op['ii']
             if n == 0:
                 continue   # numpy cannot type an empty frame array; nothing to select from
-            sel = ii if op['kind'] == 'list' else np.array(ii, dtype=int)
+            sel = {'list': list(ii), 'tuple': tuple(ii)}.get(op['kind'], np.array(ii, dtype=int))
+            if op['kind'] == 'tuple':
+                obs.cls('selector_tuple')
             if all(-n <= i < n for i in ii):
                 want = [model[i] for i in ii]
                 raised, got = attempt(f'getitem_{op["kind"]}', lambda: cad[sel], True)
@@ -450,7 +451,7 @@ def decode_bytes(fdp):
         elif k == 'pop':
             ops.append({'op': k, 'i': None if fdp.ConsumeBool() else index()})
         elif k == 'getitem_list':
-            ops.append({'op': k, 'kind': 'list' if fdp.ConsumeBool() else 'ndarray',
+            ops.append({'op': k, 'kind': ['list', 'ndarray', 'tuple'][fdp.ConsumeIntInRange(0, 2)],
                         'ii': [index() for _ in range(fdp.ConsumeIntInRange(1, 5))]})
         elif k == 'by_label':
             ops.append({'op': k, 'label': 'ABCDXab'[fdp.ConsumeIntInRange(0, 6)]})
